@@ -190,8 +190,10 @@ func wholeSliceToStream(c *Ctx, p *Prog, rule, fnKey string) {
 		call, idx := callOf(unspill(r.Results[0]))
 		okW := false
 		if call != nil && idx == 0 {
-			_, m, args := recvOf(call)
-			if m == "Write" && len(args) == 1 && unspill(args[0]) == ssa.Value(b) {
+			recv, m, args := recvOf(call)
+			if m == "Write" && len(args) == 1 && unspill(args[0]) == ssa.Value(b) && recv != nil &&
+				strings.HasSuffix(types.TypeString(recv.Type(), nil), "crypto/cipher.StreamWriter") {
+				// the StreamWriter encrypts into a buffer of its own: the caller's bytes stay as they were
 				okW = true
 			}
 		}
